@@ -517,6 +517,9 @@ class Doc:
             self.emit("${v}", v, "var")
         elif k == "escape":
             self.emit("${'%s'}" % seg[1], ESCAPES[seg[1]], "escape")
+        elif k == "defescape":
+            # an escape sequence in an argument default: regenerated from its AST into the module, whatever the codec
+            self.emit("<%%def name=\"e%d(x='%s')\">${x}</%%def>${e%d()}" % (i, seg[1], i), ESCAPES[seg[1]], "defescape")
         else:
             raise core.HarnessError("unknown segment %r" % (seg,))
 
@@ -586,6 +589,7 @@ def segments(codec, ascii_only):
         st.tuples(st.just("doc"), text),
         st.tuples(st.just("var")),
         st.tuples(st.just("escape"), st.sampled_from(sorted(ESCAPES))),
+        st.tuples(st.just("defescape"), st.sampled_from(sorted(ESCAPES))),
     )
 
 
@@ -742,7 +746,7 @@ def sweep_cases(codec, style, quick):
     s = SAMPLE[cs]
     segs = [("text", "t:" + s + "\n"), ("expr", s), ("code", s, False), ("def", s, s), ("call", s), ("page", s),
             ("if", s, s), ("for", s), ("modcode", s), ("comment", s), ("doc", s + "\n" + s), ("var",),
-            ("escape", "\\u20ac"), ("text", s)]
+            ("escape", "\\u20ac"), ("defescape", "\\u20ac"), ("text", s)]
     own = ALIASES[cs]
     others = [ALIASES[c][0] for c in other_codecs(cs)]
     isbom = codec == "utf-8-bom"
@@ -819,7 +823,7 @@ def minimise(args, kw, f0, env):
         kw["fi"] = None
     for i, sg in enumerate(segs):
         for j in range(1, len(sg)):
-            if not isinstance(sg[j], str) or sg[0] == "escape" or len(sg[j]) <= 1:
+            if not isinstance(sg[j], str) or sg[0] in ("escape", "defescape") or len(sg[j]) <= 1:
                 continue
             for cand in [""] + sorted(set(sg[j]), key=sg[j].index):
                 trial = list(segs)
